@@ -1,6 +1,6 @@
 (* C10 — pinned property theorems. This file contains statements, `exact`, and
    Print Assumptions only. The pins in tools/pins/C10.v re-check the statements. *)
-From Coq Require Import List NArith ZArith Bool Sorted.
+From Coq Require Import List NArith ZArith Bool Sorted Permutation.
 From V.gen Require Consts.
 From V.C10 Require Import Model Proofs.
 Import ListNotations.
@@ -9,14 +9,14 @@ Import ListNotations.
    dial results and rediscoveries with any victim choices) every peer's store holds at most
    `cap` pairwise distinct addresses. No assumption on the environment. *)
 Theorem C10_bound :
-  forall c k h p s, get p (final c k h) = Some s ->
+  forall c k h p s, get p (bk (final c k h)) = Some s ->
     (length s <= cap k)%nat /\ NoDup (keys s).
 Proof. exact final_bound. Qed.
 Print Assumptions C10_bound.
 
 (* ... in particular with the constants of address.rs (regenerated from the source). *)
 Theorem C10_bound_default :
-  forall c h p s, get p (final c default_scores h) = Some s ->
+  forall c h p s, get p (bk (final c default_scores h)) = Some s ->
     (N.of_nat (length s) <= Consts.MAX_ADDRESSES)%N.
 Proof. exact final_bound_default. Qed.
 Print Assumptions C10_bound_default.
@@ -33,27 +33,42 @@ Theorem C10_accept_implies_dialable :
 Proof. exact supported_dialable. Qed.
 Print Assumptions C10_accept_implies_dialable.
 
-(* What add_known_address lets through: the address unchanged, supported, not a local listen
-   address, and naming the peer it was offered for. *)
+(* What add_known_address lets through: the address unchanged, supported, not local with respect
+   to the listen addresses registered so far, and naming the peer it was offered for. *)
 Theorem C10_offer_filter :
-  forall c peer l a, In a (accepted c peer l) ->
-    In a l /\ supported c a = true /\ is_local c a = false /\ last a (Other 0) = P2p peer.
+  forall c ls peer l a, In a (accepted c ls peer l) ->
+    In a l /\ supported c a = true /\ is_local c ls a = false /\ last a (Other 0) = P2p peer.
 Proof. exact accepted_acceptable. Qed.
 Print Assumptions C10_offer_filter.
 
-(* Attributable, not local, dialable — for everything remembered after any history, provided
-   the dial results reported by the transports concern addresses acceptable for that peer
-   (they were taken from the store). *)
+(* Registering further listen addresses can only make more addresses local. *)
+Theorem C10_listen_monotone :
+  forall c l1 l2 a, incl l1 l2 -> is_local c l2 a = false -> is_local c l1 a = false.
+Proof. exact is_local_mono. Qed.
+Print Assumptions C10_listen_monotone.
+
+(* Attributable, not local, dialable — for everything remembered after any history (additions,
+   dial results, whole dial(peer) episodes, further listen addresses, held connections) that
+   starts after the listen addresses L0 were registered, provided the dial results reported
+   outside dial(peer) episodes concern addresses acceptable for that peer. *)
 Theorem C10_remembered_acceptable :
-  forall c k h p s a z,
-    Forall (op_wf (acceptable c)) h ->
-    get p (final c k h) = Some s -> In (a, z) s ->
-    (supported c a = true /\ is_local c a = false /\ last a (Other 0) = P2p p) /\
+  forall c k L0 h p s a z,
+    Forall (op_wf (acceptable c L0)) h ->
+    get p (bk (fst (run c k (mkState [] L0 0) h))) = Some s -> In (a, z) s ->
+    (supported c a = true /\ is_local c L0 a = false /\ last a (Other 0) = P2p p) /\
     (enabled c (route c a) = true /\
      exists ho port, parse (route c a) a = Some (ho, port, Some p) /\
                      host_unspecified ho = false).
-Proof. exact final_acceptable. Qed.
+Proof. exact run_acceptable. Qed.
 Print Assumptions C10_remembered_acceptable.
+
+(* ... and that invariant (with the bound and key uniqueness) is inductive from any state. *)
+Theorem C10_step_preserves :
+  forall c k L0 st o,
+    StInv k L0 (acceptable c L0) st -> op_wf (acceptable c L0) o ->
+    StInv k L0 (acceptable c L0) (fst (step c k st o)).
+Proof. exact step_acceptable. Qed.
+Print Assumptions C10_step_preserves.
 
 (* Eviction happens only at the bound and removes a record of minimal score, not above the
    newcomer's score; nothing else changes. *)
@@ -141,6 +156,62 @@ Theorem C10_dial_order_validator_complete :
 Proof. exact addresses_ok_complete. Qed.
 Print Assumptions C10_dial_order_validator_complete.
 
+(* dial(peer) end to end: when the model accepts the address lists that the implementation
+   handed to the open() of its TCP and WebSocket transports, then the peer is not the local
+   one, there was free outbound capacity `limit` (max_outgoing_connections minus the established
+   outbound connections, or everything when unlimited), the two lists merged by score are a
+   valid addresses(limit) selection of the peer's store (see C10_dial_order_validator_sound),
+   every address went to the installed transport it is routed to and names the peer, and the
+   store afterwards is the recorded outcome. *)
+Theorem C10_dial_tries :
+  forall c k st peer outcome tcp ws t w st',
+  step c k st (ODial peer outcome tcp ws) = (st', RDial (DTried t w)) ->
+  let s := get_or_empty peer (bk st) in
+  exists limit,
+    free_capacity c st (length s) = Some limit /\
+    peer <> local_peer c /\
+    t = with_scores s tcp /\ w = with_scores s ws /\
+    addresses_ok limit s (merge_desc t w) = true /\
+    Permutation (merge_desc t w) (t ++ w) /\
+    Forall (fun a => In a (keys s) /\ names peer a = true /\ route c a = TTcp /\ enabled c TTcp = true) tcp /\
+    Forall (fun a => In a (keys s) /\ names peer a = true /\ route c a = TWs /\ enabled c TWs = true) ws /\
+    st' = set_bk st (put peer (dial_outcome k s peer outcome tcp ws) (bk st)).
+Proof. exact step_dial_tried. Qed.
+Print Assumptions C10_dial_tries.
+
+Theorem C10_free_capacity :
+  forall c st n limit,
+  free_capacity c st n = Some limit ->
+  match max_out c with
+  | Some m => (held st < m)%nat /\ limit = (m - held st)%nat
+  | None => limit = n
+  end.
+Proof. exact free_capacity_spec. Qed.
+Print Assumptions C10_free_capacity.
+
+(* All attempts of a dial time out: exactly the tried addresses are re-scored, to the failure
+   score. *)
+Theorem C10_dial_all_fail :
+  forall k s peer tcp ws b,
+  NoDup (keys s) -> (forall a, In a (tcp ++ ws) -> In a (keys s)) -> sc_failure k <> 0%Z ->
+  find b (dial_outcome k s peer 0 tcp ws) =
+    if existsb (maddr_eqb b) (tcp ++ ws) then Some (sc_failure k) else find b s.
+Proof. exact dial_all_fail_find. Qed.
+Print Assumptions C10_dial_all_fail.
+
+(* Attempt j of a transport's list succeeds after the earlier ones timed out: the address used
+   gets the established score, the earlier ones the failure score, nothing else changes. *)
+Theorem C10_dial_success :
+  forall k s peer l j a b,
+  NoDup (keys s) -> (forall x, In x l -> In x (keys s)) ->
+  nth_error l j = Some a -> names peer a = true ->
+  sc_failure k <> 0%Z -> sc_established k <> 0%Z ->
+  find b (succeed_at k s peer l j) =
+    if maddr_eqb b a then Some (sc_established k)
+    else if existsb (maddr_eqb b) (firstn j l) then Some (sc_failure k) else find b s.
+Proof. exact succeed_at_find. Qed.
+Print Assumptions C10_dial_success.
+
 (* The victim choice can always be resolved (capacity >= 1): the model never gets stuck on the
    validation of the implementation's choice when a minimal record is supplied. *)
 Theorem C10_choice_resolvable :
@@ -149,16 +220,23 @@ Theorem C10_choice_resolvable :
 Proof. exact insert_pick_min_ok. Qed.
 Print Assumptions C10_choice_resolvable.
 
-(* non-vacuity: a capacity-2 store, a failure, an eviction of the failed address, a rescore *)
+(* non-vacuity: capacity 2, a listen address registered on the way, a multi-address add in the
+   implementation's order, an eviction, a full dial episode under an outbound limit *)
 Example C10_nonvacuous :
-  let c := mkCfg true false true true false 0 [[Ip4 Unspec 0; Tcp 30]] in
+  let c := mkCfg true false true true false 0 (Some 3%nat) in
   let k := mkScores 2 1 100 (-100) (-2147483648) in
   let a1 := [Ip4 Priv 1; Tcp 1; P2p 1] in
   let a2 := [Ip4 Glob 2; Tcp 2; Ws; P2p 1] in
   let a3 := [Dns 3; Tcp 3; P2p 1] in
-  let h := [OAdd 1 [a1] []; OAdd 1 [[Ip4 Loop 9; Tcp 30; P2p 1]] []; OAdd 1 [a2] [];
-            ODialFailure a1 ConnFailure None; OAdd 1 [a3] [a1];
-            OEstablished 1 a2 false None; OAdd 1 [a2] []] in
-  get 1 (final c k h) = Some [(a2, 100%Z); (a3, 1%Z)] /\
+  let h := [OListen [Ip4 Unspec 0; Tcp 30];
+            OAdd 1 [a2; [Ip4 Loop 9; Tcp 30; P2p 1]; a1; a2] [a1; a2] [];
+            ODialFailure a1 ConnFailure None; OAdd 1 [a3] [a3] [a1];
+            OHold 2;
+            ODial 1 1 [a3] [];
+            OAdd 1 [a2] [a2] []] in
+  get 1 (bk (final c k h)) = Some [(a2, 1%Z); (a3, 100%Z)] /\
+  snd (run c k init h) =
+    [RListen; RAdd 2 false; RIns (Some Updated); RAdd 1 false; RHold 2;
+     RDial (DTried [(a3, 1%Z)] []); RAdd 1 false] /\
   supported c a2 = true /\ route c a2 = TWs.
 Proof. vm_compute. repeat split; reflexivity. Qed.
